@@ -356,6 +356,7 @@ type dialRes struct {
 	local   string
 	retd    bool
 	resCall *resolverCall
+	refEl   time.Duration // how long a plain time.Sleep(timeout) started next to the dial really took (0: not finished when the dial returned)
 }
 
 type scenario struct {
@@ -422,7 +423,10 @@ func genScenario(rnd *rand.Rand) scenario {
 
 func isTimeoutErr(err error) bool { return errors.Is(err, fasthttp.ErrDialTimeout) }
 
+var meter *stallMeter
+
 func runScenario(r *mon.Run, idx int, sc scenario) {
+	tScen := time.Now()
 	pid := os.Getpid()
 	ipBase := [3]byte{byte(1 + (pid*7+idx/60)%250), byte(1 + (pid/3+idx)%250), byte(1 + 5*(idx%40))}
 	eps, port, err := openEndpoints(sc.Kinds, ipBase)
@@ -482,6 +486,9 @@ func runScenario(r *mon.Run, idx int, sc scenario) {
 		defer byG.Delete(g)
 		out.host, out.seq = host, seq
 		target := fmt.Sprintf("%s:%d", host, port)
+		// reference timer: the same deadline, served by the same scheduler at the same time
+		ref := make(chan time.Duration, 1)
+		go func() { t := time.Now(); time.Sleep(timeout); ref <- time.Since(t) }()
 		out.t0 = time.Now()
 		var c net.Conn
 		var err error
@@ -495,6 +502,10 @@ func runScenario(r *mon.Run, idx int, sc scenario) {
 			}
 		}()
 		out.t1 = time.Now()
+		select {
+		case out.refEl = <-ref:
+		default:
+		}
 		if pan != nil {
 			err = fmt.Errorf("PANIC: %v", pan)
 			r.Violation(idx, "panic", fmt.Sprintf("TCPDialer.DialTimeout panicked: %v", pan), payload(nil))
@@ -528,6 +539,11 @@ func runScenario(r *mon.Run, idx int, sc scenario) {
 		select {
 		case <-done:
 		case <-time.After(timeout + neverCap):
+			if meter.maxLag(tScen, time.Now()) > 2*stallLimit {
+				r.Event("skipped_process_stalled", 1)
+				r.Inconclusive(fmt.Sprintf("case %d: dial not back after timeout+%v, but the process heartbeat was stalled", idx, neverCap))
+				return
+			}
 			r.Violation(idx, "dial-not-returned", fmt.Sprintf("sequential dial %d to %v (timeout %v) has not returned %v after the timeout", k, sc.Addrs, timeout, neverCap), payload(nil))
 			return
 		}
@@ -552,6 +568,11 @@ func runScenario(r *mon.Run, idx int, sc scenario) {
 	case <-allDone:
 	case <-time.After(timeout + neverCap):
 		returned = false
+	}
+	if !returned && meter.maxLag(tScen, time.Now()) > 2*stallLimit {
+		r.Event("skipped_process_stalled", 1)
+		r.Inconclusive(fmt.Sprintf("case %d: dials not back after timeout+%v, but the process heartbeat was stalled", idx, neverCap))
+		return
 	}
 	if !returned {
 		// bounded liveness, far beyond the slack: the stall behind it lasts > 60 s
@@ -585,11 +606,24 @@ func runScenario(r *mon.Run, idx int, sc scenario) {
 	judge := func(k int, dr *dialRes) {
 		el := dr.t1.Sub(dr.t0)
 		if el > timeout+returnSlack {
-			key := "timeout-overrun"
-			if sc.Resolver == "hang" {
-				key = "timeout-overrun-resolver"
+			// Late by the wall clock. Compare with what the scheduler did to a plain
+			// timer of the same length at the same time, and with the heartbeat.
+			ref := dr.refEl
+			if ref == 0 {
+				ref = el // the reference timer had not even fired when the dial came back
 			}
-			r.Violation(idx, key, fmt.Sprintf("dial with timeout %v returned after %v (err=%v) (slack %v)", timeout, el, dr.err, returnSlack), payload(map[string]any{"dial": k}))
+			switch {
+			case el-ref <= returnSlack:
+				r.Event("skipped_late_like_reference_timer", 1)
+			case meter.maxLag(dr.t0, dr.t1) > stallLimit:
+				r.Event("skipped_process_stalled", 1)
+			default:
+				key := "timeout-overrun"
+				if sc.Resolver == "hang" {
+					key = "timeout-overrun-resolver"
+				}
+				r.Violation(idx, key, fmt.Sprintf("dial with timeout %v returned after %v (err=%v); a plain timer of the same length started alongside took %v; slack %v", timeout, el, dr.err, ref, returnSlack), payload(map[string]any{"dial": k}))
+			}
 		}
 		if dr.resCall != nil {
 			rc := dr.resCall
@@ -745,7 +779,7 @@ func TestC41(t *testing.T) {
 	defer r.Finish()
 	r.Rule("scenario = fresh TCPDialer{Concurrency 1-4, fake Resolver} against 1-4 loopback endpoints on private 127.x.y.z addresses sharing a port, each accepting / refusing / hanging (listen backlog 0, pre-filled); 0-9 sequential dials (rotation) then 8-64 concurrent DialTimeout/DialDualStackTimeout calls with timeout 50-300 ms (2 s for some hang-free sets); resolver ok / hangs until ctx ends / fails; optional second host name over the same addresses, optional DisableDNSResolution. distinct = (multiset of endpoint kinds, N, resolver mode, flags, set of outcomes seen); non-trivial = at least two addresses or a hanging endpoint")
 	r.Assume("slot counter is driven by fasthttp's own hook points dial.slot.acquired/released (trusted to sit right after the slot is taken / right before it is returned); the SYN_SENT count from /proc/net/tcp is the independent cross-check")
-	r.Assume("a dial may legitimately end in ErrDialTimeout whenever the machine is slow; only refusals, successes and lateness beyond timeout+5s are judged. A stall by a hanging endpoint lasts > 60 s (tcp_syn_retries=6), the hanging resolver forever: 5 s slack cannot be confused with it")
+	r.Assume("a dial may legitimately end in ErrDialTimeout whenever the machine is slow; only refusals, successes and lateness are judged. Lateness = the dial came back more than 5 s after both its timeout and a plain time.Sleep(timeout) started next to it, while the process heartbeat (20 ms ticks) was never more than 1 s late; otherwise the dial is counted as skipped_*. A stall by a hanging endpoint lasts > 60 s (tcp_syn_retries=6), the hanging resolver forever: 5 s slack cannot be confused with it")
 	r.Assume("error identity of a resolver failure (returned unwrapped by TCPDialer) is not judged; only that the dial comes back in time and without a connection")
 	r.Assume("which refused addresses were attempted cannot be observed individually (no hook on connect): a set where every address refuses is judged only through rotation of the final upstream")
 
@@ -754,6 +788,8 @@ func TestC41(t *testing.T) {
 		rl.Cur = rl.Max
 		syscall.Setrlimit(syscall.RLIMIT_NOFILE, &rl)
 	}
+	meter = startStallMeter()
+	defer close(meter.stop)
 	fasthttp.VerifSetPointHook(pointHook)
 	defer fasthttp.VerifSetPointHook(nil)
 	stop, done := make(chan struct{}), make(chan struct{})
@@ -762,7 +798,7 @@ func TestC41(t *testing.T) {
 	n := r.N(200, 5000)
 	workers := 24
 	if r.Thorough() {
-		workers = 32
+		workers = 16 // runs under -race: fewer scenarios at once keep goroutine latencies sane
 	}
 	mon.Parallel(n, workers, func(i int) {
 		if !r.Want(i) {
@@ -777,6 +813,7 @@ func TestC41(t *testing.T) {
 	close(stop)
 	<-done
 	r.Event("proc_net_tcp_samples", int(samples.Load()))
+	r.Set("worst_heartbeat_lag_ms", meter.worst().Milliseconds())
 	r.Event("hook_events_unattributed", int(unattributed.Load()))
 	if !r.Replaying() {
 		r.Require("scenarios", n)
